@@ -27,12 +27,13 @@ import (
 )
 
 type scenario struct {
-	Name     string `json:"name"`
-	SendOp   string `json:"send_op"`   // r2owa | r2owaa
-	K        int    `json:"consumers"` // fan-out
-	Double   bool   `json:"double"`    // consumers read the input in two consecutive instructions
-	MixedI2r bool   `json:"mixed_i2r"` // last consumer uses the non-handshaked i2r (outside the property's premise)
-	Tight    int    `json:"tight"`     // >0: consumers have no stall control, loop is `i2rw; (Tight-1 × nop); j 0`
+	Name     string           `json:"name"`
+	SendOp   string           `json:"send_op"`          // r2owa | r2owaa
+	K        int              `json:"consumers"`        // fan-out
+	Double   bool             `json:"double"`           // consumers read the input in two consecutive instructions
+	MixedI2r bool             `json:"mixed_i2r"`        // last consumer uses the non-handshaked i2r (outside the property's premise)
+	Tight    int              `json:"tight"`            // >0: consumers have no stall control, loop is `i2rw; (Tight-1 × nop); j 0`
+	Delays   map[string]int32 `json:"delays,omitempty"` // simulator only: fixed simulated delay per opcode
 }
 
 func (sc scenario) pcRecv() uint64 {
@@ -219,16 +220,16 @@ func observeSIM(s *bmsys.SIM) obs {
 }
 
 type outcome struct {
-	sc                                   scenario
-	backend                              string
-	states, transitions, depth           int
-	closed                               bool
-	capHit                               string
-	notSimulable                         string
-	violations                           map[string]viol
-	transfers                            int
-	noProgressStates                     int
-	noProgressSample                     []string
+	sc                         scenario
+	backend                    string
+	states, transitions, depth int
+	closed                     bool
+	capHit                     string
+	notSimulable               string
+	violations                 map[string]viol
+	transfers                  int
+	noProgressStates           int
+	noProgressSample           []string
 }
 
 type viol struct {
@@ -258,7 +259,7 @@ func explore(sc scenario, backend string, maxStates int) outcome {
 		if backend == "hdl" {
 			w.h = h0.Clone()
 		} else {
-			w.s, _ = bmsys.NewSIM(bm, true)
+			w.s, _ = bmsys.NewSIMDelays(bm, true, sc.Delays)
 		}
 		return w
 	}
@@ -342,7 +343,7 @@ func explore(sc scenario, backend string, maxStates int) outcome {
 		init.o = observeHDL(w.h)
 		pool.Put(w)
 	} else {
-		s, _ := bmsys.NewSIM(bm, false)
+		s, _ := bmsys.NewSIMDelays(bm, false, sc.Delays)
 		init.sim = s.Snapshot()
 		init.bk = bmsys.Key(init.sim)
 		init.o = observeSIM(s)
@@ -440,6 +441,40 @@ func main() {
 	for _, sc := range scs {
 		jobs = append(jobs, job{sc, "hdl"}, job{sc, "sim"})
 	}
+	// simulator only: per-opcode delay assignments (the simulator's own notion of processor speed)
+	delayOps := []string{"i2rw", "r2owa", "nop", "j", "add", "jz", "i2r"}
+	delayVals := []int32{1, 2, 3, 4, 5, 7}
+	bases := []scenario{{Name: "r2owa-i2rw-k1", SendOp: "r2owa", K: 1}, {Name: "r2owa-i2rw-gap2-k1", SendOp: "r2owa", K: 1, Tight: 2}}
+	if run.Thorough() {
+		bases = append(bases, scenario{Name: "r2owa-i2rw-gap3-k1", SendOp: "r2owa", K: 1, Tight: 3}, scenario{Name: "r2owa-i2rw-gap4-k1", SendOp: "r2owa", K: 1, Tight: 4})
+	}
+	for _, b := range bases {
+		for _, op := range delayOps {
+			for _, d := range delayVals {
+				sc := b
+				sc.Name = fmt.Sprintf("%s+delay(%s=%d)", b.Name, op, d)
+				sc.Delays = map[string]int32{op: d}
+				jobs = append(jobs, job{sc, "sim"})
+			}
+		}
+		if run.Thorough() {
+			for _, a := range delayOps {
+				for _, c := range delayOps {
+					if a >= c {
+						continue
+					}
+					for _, da := range []int32{1, 3, 5} {
+						for _, dc := range []int32{1, 3, 5} {
+							sc := b
+							sc.Name = fmt.Sprintf("%s+delay(%s=%d,%s=%d)", b.Name, a, da, c, dc)
+							sc.Delays = map[string]int32{a: da, c: dc}
+							jobs = append(jobs, job{sc, "sim"})
+						}
+					}
+				}
+			}
+		}
+	}
 	outs := make([]outcome, len(jobs))
 	var wg sync.WaitGroup
 	sem := make(chan struct{}, 6)
@@ -476,6 +511,9 @@ func main() {
 		}
 		if o.sc.Tight > 0 {
 			shape = fmt.Sprintf("loop-gap-%d", o.sc.Tight)
+		}
+		if len(o.sc.Delays) > 0 {
+			shape += ",opcode-delays"
 		}
 		if o.sc.K > 1 {
 			shape += ",fan-out>1"
@@ -538,7 +576,7 @@ func doReplay(run *vlib.Run) {
 		}
 		before = observeHDL(h)
 	} else {
-		s, _ = bmsys.NewSIM(bm, true)
+		s, _ = bmsys.NewSIMDelays(bm, true, sc.Delays)
 		before = observeSIM(s)
 	}
 	for t, l := range rp.Schedule {
